@@ -32,6 +32,8 @@ MixForms == {"array", "object", "args", "newargs"}
 MixWheres == IF Quick THEN {"program"} ELSE {"program", "fdecl", "callback"}
 Digit == <<"0", "1", "2", "3", "4", "5", "6", "7">>
 MixTemplates == {"mx_" \o f \o "_" \o Digit[k + 1] \o "_" \o w : f \in MixForms, k \in 0..7, w \in MixWheres}
+\* (the judge is not told the tier: closed forms are defined for the templates of every tier)
+MixTemplatesAll == {"mx_" \o f \o "_" \o Digit[k + 1] \o "_" \o w : f \in MixForms, k \in 0..7, w \in {"program", "fdecl", "callback"}}
 MixNs == {1, 9, 200, 254, 255, 256, 257, 300, 511, 512, 1000} \cup (IF Quick THEN {} ELSE {253, 258, 509, 510, 513, 765, 766, 767, 2000})
 \* a switch with n literal cases (numbers 0..n-1, then the strings "s0".."s2") selected by a discriminant of every primitive
 \* kind: case selection is strict equality whatever the number of cases (a dispatch table for long switches must not let
@@ -52,7 +54,7 @@ PayloadOf(t) == CHOOSE p \in Payloads : \E w \in Wraps : t = "w_" \o p \o "_" \o
 M7(x) == x % 7
 Closed(t, n) ==
   CASE t \in WrapTemplates -> (IF PayloadOf(t) = "consts" THEN VStr(U("c") \o IntText(n - 1)) ELSE VInt(n))
-    [] t \in MixTemplates -> VInt(n)
+    [] t \in MixTemplatesAll -> VInt(n)
     [] t \in {"swd_true", "swd_false", "swd_str1", "swd_nan", "swd_null", "swd_undef", "swd_cmp"} -> VStr(U("none"))
     [] t \in {"swd_one", "swd_float1"} -> VStr(IF n >= 2 THEN U("c1") ELSE U("none"))
     [] t = "swd_negzero" -> VStr(U("c0"))
